@@ -165,6 +165,51 @@ def build_targets():
     T["TreeInfo.loads:release.version"] = ti_loads("release", "version")
     T["TreeInfo.loads:header.version"] = ti_loads("header", "version")
     T["TreeInfo.loads:tree.build_timestamp"] = ti_loads("tree", "build_timestamp")
+    T["TreeInfo.loads:tree.arch"] = ti_loads("tree", "arch")
+    T["TreeInfo.loads:tree.platforms"] = ti_loads("tree", "platforms")
+    T["TreeInfo.loads:tree.variants"] = ti_loads("tree", "variants")
+    T["TreeInfo.loads:release.short"] = ti_loads("release", "short")
+    T["TreeInfo.loads:variant.id"] = ti_loads("variant-Server", "id")
+    T["TreeInfo.loads:variant.uid"] = ti_loads("variant-Server", "uid")
+    T["TreeInfo.loads:variant.type"] = ti_loads("variant-Server", "type")
+
+    def ti_extra(template):
+        def run(s):
+            s = s.replace("\n", " ").replace("\r", " ")
+            text = ("[header]\nversion = 1.2\ntype = productmd.treeinfo\n[release]\nname = F\nshort = F\nversion = 22\n"
+                    "[tree]\narch = x86_64\nplatforms = x86_64,xen\nbuild_timestamp = 1\nvariants = Server\n"
+                    "[variant-Server]\nid = Server\nuid = Server\nname = Server\ntype = variant\npackages = Packages\n" + template % s)
+            ti.TreeInfo().loads(text)
+        return run
+    T["TreeInfo.loads:images.path"] = ti_extra("[images-x86_64]\nkernel = %s\n")
+    T["TreeInfo.loads:images.section"] = ti_extra("[images-%s]\nkernel = vmlinuz\n")
+    T["TreeInfo.loads:checksums.value"] = ti_extra("[checksums]\nimages/boot.iso = %s\n")
+    T["TreeInfo.loads:checksums.path"] = ti_extra("[checksums]\n%s = sha256:" + "a" * 64 + "\n")
+    T["TreeInfo.loads:stage2.mainimage"] = ti_extra("[stage2]\nmainimage = %s\n")
+    T["TreeInfo.loads:media.discnum"] = ti_extra("[media]\ndiscnum = %s\ntotaldiscs = 1\n")
+    T["TreeInfo.loads:variant.packages"] = ti_extra("[variant-Server-x]\nid = x\nuid = Server-x\nname = x\ntype = addon\nparent = Server\nrepository = %s\n")
+    T["DiscInfo.loads:description"] = lambda s: di.DiscInfo().loads("1.0\n" + s.replace("\n", " ") + "\nx86_64\nALL")
+    T["DiscInfo.loads:arch"] = lambda s: di.DiscInfo().loads("1.0\nFedora\n" + s.replace("\n", " ") + "\nALL")
+    T["ComposeInfo.loads:variant.uid"] = ci_loads(["payload", "variants", "Server", "uid"])
+    T["ComposeInfo.loads:variant.type"] = ci_loads(["payload", "variants", "Server", "type"])
+    T["ComposeInfo.loads:release.short"] = ci_loads(["payload", "release", "short"])
+
+    def img_field(field):
+        def run(s):
+            doc = json.loads(json.dumps(base_img))
+            doc["payload"]["images"]["Server"]["x86_64"][0][field] = s
+            im.Images().loads(json.dumps(doc))
+        return run
+    for fld in ("path", "type", "format", "arch", "subvariant", "volume_id"):
+        T["Images.loads:" + fld] = img_field(fld)
+
+    def doc_target(cls_factory):
+        def run(s):
+            cls_factory().loads(s)
+        return run
+    T["doc:ComposeInfo.loads"] = doc_target(ci.ComposeInfo)
+    T["doc:TreeInfo.loads"] = doc_target(ti.TreeInfo)
+    T["doc:Images.loads"] = doc_target(im.Images)
     T["DiscInfo.loads:disc_numbers"] = lambda s: di.DiscInfo().loads("1.0\nFedora\nx86_64\n" + s.replace("\n", " "))
     T["DiscInfo.loads:timestamp"] = lambda s: di.DiscInfo().loads(s.replace("\n", " ") + "\nFedora\nx86_64\nALL")
     return T
@@ -210,7 +255,55 @@ def guarded(fn, s, cpu_s):
         signal.setitimer(signal.ITIMER_VIRTUAL, 0)
 
 
+def structure_doc(name, n):
+    """Documents whose STRUCTURE is pumped (nesting depth / repetition n), for the doc:* targets."""
+    if name.startswith("composeinfo-"):
+        variants = {}
+        uid = "V"
+        depth = n if "chain" in name else 2
+        for level in range(depth):
+            entry = {"id": "V" if level == 0 else "c", "uid": uid, "name": "Variant %d" % level, "type": "variant",
+                     "arches": ["x86_64"], "paths": {}}
+            if level < depth - 1:
+                k = 2 if name.endswith("-dup") and "chain" in name else (n if name == "composeinfo-wide-dup" else 1)
+                entry["variants"] = ["c"] * k
+            variants[uid] = entry
+            uid += "-c"
+        if name == "composeinfo-wide":
+            variants["V"]["variants"] = ["c%d" % i for i in range(n)]
+            del variants["V-c"]
+            for i in range(n):
+                variants["V-c%d" % i] = {"id": "c%d" % i, "uid": "V-c%d" % i, "name": "x", "type": "addon", "arches": ["x86_64"], "paths": {}}
+        return json.dumps({"header": {"type": "productmd.composeinfo", "version": "1.2"},
+                           "payload": {"compose": {"id": "D-1.0-20240101.0", "type": "production", "date": "20240101", "respin": 0},
+                                       "release": {"name": "D", "short": "D", "version": "1.0", "type": "ga", "internal": False},
+                                       "variants": variants}}, indent=1, sort_keys=True)
+    if name.startswith("treeinfo-"):
+        out = ["[header]", "version = 1.2", "type = productmd.treeinfo", "[release]", "name = F", "short = F", "version = 22",
+               "[tree]", "arch = x86_64", "platforms = x86_64", "build_timestamp = 1", "variants = V"]
+        uid = "V"
+        for level in range(n):
+            out += ["[variant-%s]" % uid, "id = %s" % ("V" if level == 0 else "c"), "uid = %s" % uid, "name = x",
+                    "type = %s" % ("variant" if level == 0 else "addon")]
+            if level > 0:
+                out.append("parent = %s" % uid[:-2])
+            if level < n - 1:
+                child = uid + "-c"
+                out.append("variants = %s" % (child + "," + child if name.endswith("-dup") else child))
+            uid += "-c"
+        return "\n".join(out) + "\n"
+    if name == "images-same-image-repeated":
+        img = {"path": "a.iso", "mtime": 1, "size": 1, "volume_id": None, "type": "dvd", "format": "iso", "arch": "x86_64",
+               "disc_number": 1, "disc_count": 1, "checksums": {"md5": "x"}, "implant_md5": None, "bootable": False, "subvariant": "S"}
+        return json.dumps({"header": {"version": "1.2", "type": "productmd.images"},
+                           "payload": {"compose": {"id": "F-22-20150522.0", "type": "production", "date": "20150522", "respin": 0},
+                                       "images": {"Server": {"x86_64": [dict(img, path="a%d.iso" % i) for i in range(n)]}}}})
+    raise KeyError(name)
+
+
 def family_input(fam, n):
+    if fam.get("structure"):
+        return structure_doc(fam["structure"], n)
     if fam.get("blocks"):
         return fam["prefix"] + "".join(b * n for b in fam["blocks"]) + fam["suffix"]
     return fam["prefix"] + fam["pump"] * n + fam["suffix"]
@@ -534,8 +627,10 @@ def do_measure(spec, out):
     results = []
     import gc
     gc.disable()
+    base_cap = cap
     for fam in spec["families"]:
         gc.collect()
+        cap = base_cap * 10 if fam.get("structure") else base_cap
         if time.time() > t_end:
             results.append({"id": fam["id"], "verdict": "unmeasured", "points": []})
             continue
